@@ -18,7 +18,9 @@ def _t() -> Dict[str, List[Tuple[str, str, Callable[[Check], object]]]]:
     MSG = lambda ck: c07.r07_1_2(ck, False, "R07.1")          # noqa  (all codecs, wire messages included)
     CONSENSUS_CODECS = lambda ck: c07.r07_1_2(ck, True, "R07.1")   # noqa
     return {
-        "C01": [("R03.2", "the unspent set a spend is checked against is built from the block's PARENT's set", c03.r03_2),
+        "C01": [("R09.5", "a block that is still to be validated is only buffered: refusing it leaves the store as it was", c09.r09_5),
+                ("R13.3", "every validated state becomes the roll-back target (a refusal rolls back to the latest one, not to an older one)", c13.r13_3),
+                ("R03.2", "the unspent set a spend is checked against is built from the block's PARENT's set", c03.r03_2),
                 ("R08.1", "after a restart the ledger is rebuilt from rows that mirror what was written", c08.r08_1),
                 ("R13.6", "the state a rejected block is rolled back to is the latest validated one (every caller records it)", c13.r13_6)],
         "C02": [("R09.flow", "a relayed block is served as validated only after in-state validation completed", c09.r09_flow),
@@ -37,25 +39,31 @@ def _t() -> Dict[str, List[Tuple[str, str, Callable[[Check], object]]]]:
                 ("R12.1", "the candidate the worker hashes is the one the watcher assembled for it", c12.r12_1)],
         "C06": [("R09.flow", "a tampered block that is refused does not stay buffered for the store", c09.r09_flow),
                 ("R09.5", "the buffer that is cleared on refusal is the buffer that was written", c09.r09_5)],
+        "C07": [("R08.5", "what the store hands back under an id is the whole of what was written under it (a batch is stored whole or not at all)", c08.r08_5)],
         "C08": [("R07.6", "variable-length integers written to blobs decode canonically", c07.r07_6),
                 ("R09.flow", "the relay handler clears the write buffer when it rejects a buffered block", c09.r09_flow),
                 ("R09.5", "blocks handed to the disk interface reach the store's buffer, one by one", c09.r09_5),
                 ("R04.2", "the head recomputed on reload is chosen by the same measure of work", c04.r04_2)],
-        "C09": [("R13.3", "set_coinstate stores the adopted state and the roll-back target", c13.r13_3),
+        "C09": [("R17.1", "the commitment to the transaction list is compared on every path of structural validation", c17.r17_1),
+                ("R01.7", "no reference is spent twice inside a relayed block (full validity before adoption)", c01.r01_7),
+                ("R13.3", "set_coinstate stores the adopted state and the roll-back target", c13.r13_3),
                 ("R05.7", "valid relayed blocks on a fork pass the evidence check (own ancestors)", c05.r05_7),
                 ("R01.10", "applying a block removes exactly the spent outputs (a re-spend fails to apply)", lambda ck: rule_uto_apply(ck, "R01.10")),
                 ("R02.3", "overspend check after the existence check (a missing input is a rejection, not an error)", c02.r02_3),
                 ("R03.2", "a fork block is applied to its parent's ledger", c03.r03_2),
                 ("R01.4", "a relayed block's spends carry signatures over the whole transaction (full validity before adoption)", c01.r01_3_4),
                 ("R05.6", "a relayed block's height is its parent's plus one (full validity before adoption)", c05.r05_6)],
-        "C10": [("R03.2", "states built during download are built from each block's parent", c03.r03_2),
+        "C10": [("R13.1", "a relayed transaction is admitted against the state the node serves (the state it synchronised to)", c13.r13_1),
+                ("R13.3", "the chain manager stores every state it is given (side-branch blocks are kept)", c13.r13_3),
+                ("R03.2", "states built during download are built from each block's parent", c03.r03_2),
                 ("R04.4", "the height index used to answer get-blocks is the head's", c04.r04_4),
                 ("P7", "a block-sized data message fits the frame limit", c11.check_receive),
                 ("R09.8", "transactions and blocks are relayed to every active peer", c09.r09_8),
                 ("R09.10", "a peer that greeted is an active peer", c09.r09_10)],
         "C11": [("R07.1", "every message an unmodified peer sends decodes (field widths and signedness agree)", MSG),
                 ("R18.5", "list lengths on the wire use the encoding deployed nodes use", c18.r18_5)],
-        "C12": [("R13.3", "adopting the found block stores it as the served state, then cleans the pool against it", c13.r13_3),
+        "C12": [("R13.1", "no two pending transactions spend the same output (the candidate built from the pool passes validation)", c13.r13_1),
+                ("R13.3", "adopting the found block stores it as the served state, then cleans the pool against it", c13.r13_3),
                 ("R09.10", "every peer that greeted receives the found block", c09.r09_10),
                 ("R09.5", "a found block handed to the disk interface reaches the store that is read at start-up", c09.r09_5)],
         "C13": [("R01.4", "admission checks every input's signature over the whole transaction", c01.r01_3_4),
@@ -98,6 +106,8 @@ RX2 = {
             "a well-formed frame is delivered, not refused"),
     "C12": (["skepticoin.consensus.", "skepticoin.datatypes.", "skepticoin.coinstate.", "skepticoin.signing."],
             "the miner's own block passes the node's own validation"),
+    "C16": (["skepticoin.consensus.validate_coinbase_transaction", "skepticoin.consensus.get_block_subsidy", "skepticoin.consensus.validate_sashimi_range"],
+            "a reward transaction paying what the schedule gives (nothing at all, once the schedule is exhausted) is accepted"),
     "C14": (["skepticoin.consensus.validate_non_coinbase", "skepticoin.consensus.validate_signature", "skepticoin.consensus.validate_no_duplicate",
              "skepticoin.consensus.validate_sashimi", "skepticoin.wallet.", "skepticoin.datatypes."],
             "a spend the wallet built passes transaction validation"),
